@@ -238,7 +238,9 @@ def loop_certificates(ctx, A, bodies, rid, since=0):
                 ok = True
                 why.append("U: every abstract path leaves the loop within the unroll bound in all %d analysed contexts" % len(os_))
             if any(o["mode"] == "fixpoint" for o in os_) and \
-                    all(o["mode"] == "unrolled" or (o.get("measure") or "").endswith("shrinks") for o in os_):
+                    all(o["mode"] == "unrolled" or (o.get("measure") or "").endswith("shrinks")
+                        or o.get("measure") == "no-back-edge" for o in os_) and \
+                    any((o.get("measure") or "").endswith("shrinks") for o in os_):
                 ok = True
                 why.append("L3: a slice strictly shrinks on every back edge (%s)" % ",".join(measures))
             if not os_:
